@@ -159,6 +159,59 @@ MCBytes == {%s}
     for m in [x for x in recs if x.get('kind') == 'mismatch']:
         ctx.violation('C09:rotation:%s:%s' % (m.get('what'), m.get('op', '')), m,
                       'behaviour %s step %s (%s): model and real telemetry directory differ: %s' % (m.get('id'), m.get('step'), m.get('op'), json.dumps(m)[:600]))
+    # ---- 2b. the library's own clock in a process whose zone is far from UTC (the local date differs from the UTC date)
+    recs, rc, out = ctx.run_harness('./internal/verifh/c09', 'TestVerifC09RealClock', inp={}, timeout=600)
+    robs = [{k: v for k, v in x.items() if k != 'kind'} for x in recs if x.get('kind') == 'obs']
+    if not robs:
+        raise Infra('C09 real-clock harness wrote nothing:\n' + out[-1500:])
+    r = ctx.tlc('CalendarTrace', files={'c09obs.ndjson': ndjson_text(robs)}, workers=1, label='CalendarTrace[realclock]', count=False)
+    if r.error == 'invariant':
+        st = r.trace[-1][1] if r.trace else {}
+        idx = st.get('l', 0)
+        bad = robs[idx - 1] if 0 < idx <= len(robs) else None
+        ctx.violation('C09:counterSpan:realclock', {'obs': bad},
+                      'with the library\'s own clock in a process whose time zone is %s h from UTC the span is not the one of the current UTC day: %s' % ((bad or {}).get('zone'), json.dumps(bad)))
+    elif not r.ok:
+        raise Infra('CalendarTrace(realclock): %s\n%s' % (r.error, r.out[-2000:]))
+    else:
+        ctx.cov['traces_validated_against_impl'] += len(robs)
+    ctx.cov['evaluations'] += len(robs)
+
+    # ---- 2c. the uploader on two files of one begin day with different recorded ends (CalendarUpl.tla) ----
+    r = ctx.tlc('CalendarUpl', dump=True, label='CalendarUpl')
+    if not r.ok:
+        raise Infra('CalendarUpl: %s\n%s' % (r.error, r.out[-2000:]))
+    uvec, want = [], {}
+    for i, st in enumerate(tlaval.read_dump(r.dump)):
+        base = 19730
+        uvec.append(dict(id=i, base=base, e1=st['e1'], e2=st['e2'], v1=st['v1'], v2=st['v2'], start=st['start']))
+        rep = st['reports']
+        if isinstance(rep, (list, tuple)):      # TLC prints a function with domain 1..n as a sequence
+            rep = {i + 1: v for i, v in enumerate(rep)}
+        elif not isinstance(rep, dict):
+            rep = {}
+        disk = {}
+        for p_, e_, v_ in (('a', st['e1'], st['v1']), ('b', st['e2'], st['v2'])):
+            if p_ in st['left']:
+                k = '%d,%d' % (base, base + e_)
+                disk[k] = disk.get(k, 0) + v_
+        want[i] = (disk, {str(base + int(k)): v for k, v in rep.items()})
+    recs, rc, out = ctx.run_harness('./internal/verifh/c09', 'TestVerifC09Upl', inp={'vectors': uvec}, timeout=900)
+    got = [x for x in recs if x.get('kind') == 'upl']
+    if len(got) != 2 * len(uvec):
+        raise Infra('C09 upl harness: %d results for %d vectors\n%s' % (len(got), len(uvec), out[-1500:]))
+    ctx.cov['evaluations'] += len(got)
+    for x in got:
+        wd, wr = want[x['id']]
+        if x['problems'] or x['disk'] != wd or x['reports'] != wr:
+            v = uvec[x['id']]
+            ctx.violation('C09:uploader:same-day-files', {'vector': v, 'observed': x, 'want_disk': wd, 'want_reports': wr},
+                          'two count files that begin on the same day with recorded ends +%d and +%d days, run starting %d s after the begin (name order %d): '
+                          'files left %s reports %s, the specification (each file judged by its own recorded end) says files %s reports %s' % (
+                              v['e1'], v['e2'], v['start'], x['order'], x['disk'], x['reports'], wd, wr))
+        else:
+            ctx.cov['traces_validated_against_impl'] += 1
+
     # ---- 3a. the timer protocol as a design (CalendarTimer.tla): liveness under weak fairness ----
     for rearm, want_ok in (('TRUE', True), ('FALSE', False)):
         cfg = ('SPECIFICATION Spec\nCONSTANTS\n W = %d\n DayTicks = 3\n MaxNow = %d\n RearmAlways = %s\n'
